@@ -6,6 +6,13 @@
 From HT Require Import Model.Str Model.Serialize Spec.SerializeSpec Gen.Tables
      Proofs.SerializeProofs.
 
+(* The translator found the two .replace literals and the extraction regex in the shape the
+   model assumes (otherwise the literals below are empty and nothing here means anything). *)
+Theorem C13_literals_recognised :
+  neutralise_recognised && extract_regex_recognised = true.
+Proof. vm_compute. reflexivity. Qed.
+Print Assumptions C13_literals_recognised.
+
 (* ------------------------------------------------------------------------------------ *)
 (* T1  no end-tag-like  < / s c r i p t  in any letter case inside the serialised payload *)
 (* ------------------------------------------------------------------------------------ *)
